@@ -105,6 +105,105 @@ def check_mpmath_tables(r, repo, rule="R13.1"):
     return n
 
 
+def check_float2fraction_algebra(r, repo, rule="R13.3"):
+    """Symbolic (power-of-two algebra) evaluation of the numpy.floating branch of float2fraction, per format, per value class."""
+    from sa.pow2alg import Val, Exp, evaluate as pev, NotAlgebraic
+
+    f = repo.func(REL, "float2fraction")
+    branch = None
+    for n in f.body:
+        if isinstance(n, ast.If):
+            m = n
+            while m is not None:
+                if isinstance(m.test, ast.Call) and dotted(m.test.func) == "isinstance" and norm_src(m.test.args[1]) == "numpy.floating":
+                    branch = m
+                m = m.orelse[0] if len(m.orelse) == 1 and isinstance(m.orelse[0], ast.If) else None
+    if branch is None:
+        raise AnalysisError("float2fraction: numpy.floating branch not found")
+    for bits in BITS:
+        p, emax, emin = PREC[bits], EMAX[bits], EMIN[bits]
+        finfo = {"fi.nexp": Val.const(bits - p), "fi.negep": Val.const(-p), "fi.minexp": Val.const(emin), "fi.maxexp": Val.const(emax + 1), "fi.machep": Val.const(1 - p)}
+        for s_val in (0, 1):
+            env = dict(finfo)
+            env["one"] = Val.const(1)
+            env["s"] = Val.const(s_val)
+            env["fpart"] = Val.sym("fpart")
+            env["epart"] = Val.sym("epart")
+            results = {}
+
+            def walk(stmts, conds):
+                for st in stmts:
+                    if isinstance(st, ast.Assign) and len(st.targets) == 1 and isinstance(st.targets[0], ast.Name):
+                        nm = st.targets[0].id
+                        if nm in ("fpart", "epart", "s", "i", "u", "dtype", "fi", "itype"):
+                            continue
+                        try:
+                            env[nm] = pev(st.value, env)
+                        except NotAlgebraic:
+                            env.pop(nm, None)
+                    elif isinstance(st, ast.If):
+                        node = st
+                        while True:
+                            saved = dict(env)
+                            walk(node.body, conds + [norm_src(node.test)])
+                            if "num" in env and "denom" in env:
+                                results[" & ".join(conds + [norm_src(node.test)])] = (env["num"], env["denom"])
+                            env.clear()
+                            env.update(saved)
+                            if len(node.orelse) == 1 and isinstance(node.orelse[0], ast.If):
+                                conds = conds + ["not " + norm_src(node.test)]
+                                node = node.orelse[0]
+                                continue
+                            saved = dict(env)
+                            walk(node.orelse, conds + ["not " + norm_src(node.test)])
+                            if "num" in env and "denom" in env:
+                                results[" & ".join(conds + ["not " + norm_src(node.test)])] = (env["num"], env["denom"])
+                            env.clear()
+                            env.update(saved)
+                            break
+
+            walk(branch.body, [])
+            fsz = p - 1
+            bias = emax
+            sigma = 1 - 2 * s_val
+            want_normal = (Val.const(sigma) * (Val.pow2(Exp({}, fsz)) + Val.sym("fpart"))) * Val.pow2(Exp({"epart": 1}, -bias - fsz))
+            want_sub = Val.const(sigma) * Val.sym("fpart") * Val.pow2(Exp({}, emin - fsz))
+            seen = 0
+            for cond, (num, den) in results.items():
+                try:
+                    val = num.divide(den)
+                except NotAlgebraic as e:
+                    raise AnalysisError(f"float2fraction[{cond}]: {e}")
+                c = cond.replace(" ", "")
+                if "epart==0andfpart==0" in c and not c.startswith("not"):
+                    want, cls = Val(), "zero"
+                elif c.endswith("epart==0"):
+                    want, cls = want_sub, "subnormal"
+                    val = val.subst_exp("epart", 0)
+                elif "epart==emaskandfpart==0" in c and not c.endswith("e<0"):
+                    if c.endswith("epart==emaskandfpart==0"):
+                        continue  # infinity: not a finite value
+                    want, cls = want_normal, "normal"
+                else:
+                    want, cls = want_normal, "normal" + (" (e < 0)" if c.endswith("e<0") and not c.endswith("note<0") else " (e >= 0)")
+                seen += 1
+                ok = val == want
+                r.ob(rule, f"{REL}::float2fraction float{bits} sign={s_val} {cls}", ok,
+                     f"for {cls} numbers the branch [{cond[-60:]}] returns {val!r}; the IEEE binary{bits} value is {want!r}", loc(REL, branch),
+                     sample=dict(rule=rule, format=f"float{bits}", cls=cls, value=repr(val)) if s_val == 0 else None)
+            if seen < 3:
+                raise AnalysisError(f"float2fraction float{bits}: only {seen} value-class branches recognised")
+    # the field extraction itself: fpart = low fsz bits, epart = next esz bits
+    env2 = {}
+    for st in ast.walk(branch):
+        if isinstance(st, ast.Assign) and isinstance(st.targets[0], ast.Name):
+            env2[st.targets[0].id] = norm_src(st.value)
+    ok = (env2.get("fmask") == "itype((one << fsz) - one)" and env2.get("emask") == "itype((one << esz) - one)" and env2.get("fpart") == "int(u & fmask)"
+          and env2.get("epart") == "int(u >> fsz & emask)" and env2.get("u") == "i & umask" and env2.get("umask") == "itype((one << esz + fsz) - one)")
+    r.ob(rule, f"{REL}::float2fraction field extraction", ok, f"fmask={env2.get('fmask')} emask={env2.get('emask')} fpart={env2.get('fpart')} epart={env2.get('epart')} u={env2.get('u')}", loc(REL, branch))
+    r.ob(rule, f"{REL}::float2fraction exponent", env2.get("e") == "epart + fi.minexp - 1", f"e = {env2.get('e')}", loc(REL, branch))
+
+
 def run(repo, tier):
     r = Report("C13", tier, repo, level="other", design_ref="§3/C13")
     r.explanation = (
@@ -114,6 +213,8 @@ def run(repo, tier):
     )
     r.trusted_base = ["Python ast", "IEEE-754 binary16/32/64 parameters"]
     r.rule("R13.2", "float2expansion subtracts each word in the accumulator's own type (a Python float minus a numpy scalar is computed in the scalar's narrower type)", floor=1)
+    r.rule("R13.4", "float2mpf: the power of two applied to the mantissa is subtracted from the exponent (man * 2**exp == mantissa * 2**exponent)", floor=1)
+    r.rule("R13.3", "float2fraction decodes the IEEE fields exactly: for every finite bit pattern num/denom equals (-1)^s * significand * 2^exponent", floor=12)
     r.rule("R13.1", "format tables agree with IEEE-754 binary16/32/64 (widths, exponent/significand bits, precision, exponent ranges)", floor=30)
     n = check_format_dicts(r, repo)
     n += check_mpmath_tables(r, repo)
@@ -134,6 +235,31 @@ def run(repo, tier):
     r.ob("R13.2", f"{REL}::float2expansion residual update", cast_ok and not bare,
          f"`{norm_src(upd[0])}`: q may be a Python float (number2expansion accepts `float`); under NumPy's weak-scalar promotion `python_float - numpy.{'{dtype}'}` is "
          "computed in the narrower dtype, the residual rounds to 0 and the expansion loses its tail (value no longer equals the input)", loc(REL, upd[0]))
+    check_float2fraction_algebra(r, repo)
+    # R13.4 float2mpf exponent bookkeeping
+    from sa.pow2alg import Val, Exp, evaluate as pev, as_exp, NotAlgebraic
+    fm = repo.func(REL, "float2mpf")
+    env3 = {"mantissa": Val.sym("mantissa"), "exponent": Val.sym("exponent"), "prec": Val.sym("prec")}
+    got = {}
+    for st in ast.walk(fm):
+        if isinstance(st, ast.Assign) and isinstance(st.targets[0], ast.Name) and st.targets[0].id in ("man_", "exp_", "man", "exp"):
+            v = st.value
+            try:
+                if isinstance(v, ast.Call) and (dotted(v.func) or "").endswith("ldexp") and len(v.args) == 2:
+                    got[st.targets[0].id] = pev(v.args[0], env3) * Val.pow2(as_exp(pev(v.args[1], env3)))
+                else:
+                    got[st.targets[0].id] = pev(v, {**env3, **got})
+            except NotAlgebraic:
+                pass
+    if "man_" not in got or "exp_" not in got:
+        raise AnalysisError("float2mpf: man_/exp_ not recognised")
+    try:
+        total = got["man_"] * Val.pow2(as_exp(got["exp_"]))
+        ok = total == Val.sym("mantissa") * Val.pow2(Exp({"exponent": 1}))
+        detail = f"man_ * 2**exp_ = {total!r}, expected mantissa * 2**exponent"
+    except NotAlgebraic as e:
+        ok, detail = False, str(e)
+    r.ob("R13.4", f"{REL}::float2mpf man * 2**exp", ok, detail, loc(REL, fm))
     # float2fraction: field sizes derived from finfo
     f = repo.func(REL, "float2fraction")
     env = {}
